@@ -767,6 +767,9 @@ func main() {
 	group("SrcHeaderProgs.v", func() {
 		translateHeaderPrograms(intByName, rootByName, intCE, rootCE, &out)
 	})
+	group("SrcStaleIfError.v", func() {
+		translateCanStaleOnError(intByName, intCE, &out)
+	})
 	group("SrcOrigin.v", func() {
 		translateEffects(effSpec{file: "helpers.go", fn: "sameOrigin", coq: "src_same_origin", params: "(a b : url)", ret: "bool", pure: true,
 			env: func() *eenv {
